@@ -86,8 +86,21 @@ func runSolvers(dir, base, script string, timeoutS int, agree bool, seed int) so
 	}
 	res := solveResult{status: "unknown", all: map[string]string{}}
 	var outs []string
+	var grace <-chan time.Time
 	for i := 0; i < len(solvers); i++ {
-		r := <-ch
+		var r one
+		select {
+		case r = <-ch:
+		case <-grace:
+			// cross-check window over: the remaining solvers did not answer in time
+			cancel()
+			go func(n int) {
+				for j := 0; j < n; j++ {
+					<-ch
+				}
+			}(len(solvers) - i)
+			return res
+		}
 		res.all[r.name] = r.status
 		outs = append(outs, fmt.Sprintf("[%s] %s", r.name, strings.TrimSpace(truncate(r.out, 2000))))
 		if r.status != "unknown" && res.status == "unknown" {
@@ -95,6 +108,9 @@ func runSolvers(dir, base, script string, timeoutS int, agree bool, seed int) so
 			res.solver = r.name
 			res.ms = r.ms
 			res.output = r.out
+			if agree && grace == nil {
+				grace = time.After(8 * time.Second)
+			}
 			if !agree {
 				cancel()
 				// drain in background
